@@ -10,6 +10,7 @@ import (
 	"errors"
 	"fmt"
 	"net"
+	"sync"
 	"time"
 
 	"github.com/pion/logging"
@@ -39,6 +40,11 @@ type Server struct {
 	listenerConfigs    []ListenerConfig
 	allocationManagers []*allocation.Manager
 	inboundMTU         int
+
+	// Connections accepted on the stream listeners, closed with the server.
+	connsLock sync.Mutex
+	conns     map[net.Conn]struct{}
+	closed    bool
 }
 
 // NewServer creates the Pion TURN server.
@@ -137,6 +143,19 @@ func (s *Server) AllocationCount() int {
 func (s *Server) Close() error {
 	var errors []error
 
+	// Connections accepted earlier must not outlive the server: a request arriving on one of
+	// them would otherwise still be served (and could allocate) after Close.
+	s.connsLock.Lock()
+	s.closed = true
+	conns := make([]net.Conn, 0, len(s.conns))
+	for conn := range s.conns {
+		conns = append(conns, conn)
+	}
+	s.connsLock.Unlock()
+	for _, conn := range conns {
+		_ = conn.Close()
+	}
+
 	for _, cfg := range s.packetConnConfigs {
 		if err := cfg.PacketConn.Close(); err != nil {
 			errors = append(errors, err)
@@ -170,7 +189,15 @@ func (s *Server) readListener(l net.Listener, am *allocation.Manager) {
 			return
 		}
 
+		if !s.trackConn(conn) {
+			_ = conn.Close()
+
+			return
+		}
+
 		go func() {
+			defer s.untrackConn(conn)
+
 			var tlsConnectionState *tls.ConnectionState
 
 			// Extract tls connection state if possible
@@ -204,6 +231,29 @@ func (s *Server) readListener(l net.Listener, am *allocation.Manager) {
 			}
 		}()
 	}
+}
+
+// trackConn remembers an accepted connection; it reports false when the server is already closed.
+func (s *Server) trackConn(conn net.Conn) bool {
+	s.connsLock.Lock()
+	defer s.connsLock.Unlock()
+
+	if s.closed {
+		return false
+	}
+	if s.conns == nil {
+		s.conns = map[net.Conn]struct{}{}
+	}
+	s.conns[conn] = struct{}{}
+
+	return true
+}
+
+func (s *Server) untrackConn(conn net.Conn) {
+	s.connsLock.Lock()
+	defer s.connsLock.Unlock()
+
+	delete(s.conns, conn)
 }
 
 type nilAddressGenerator struct{}
